@@ -79,13 +79,15 @@ def parse_spec(path):
             elif key == '@harness':
                 parts = shlex.split(rest)
                 h = {'name': parts[0], 'props': [], 'enforce': None, 'replace': [], 'timeout': 900, 'mem': 10,
-                     'defines': [], 'unwind': None, 'flags': [], 'tier': 'quick', 'expect': 'pass', 'loopc': True}
+                     'defines': [], 'covers': [], 'unwind': None, 'flags': [], 'tier': 'quick', 'expect': 'pass', 'loopc': True}
                 for p in parts[1:]:
                     k, _, v = p.partition('=')
                     if k == 'props':
                         h['props'] = v.split(',')
                     elif k == 'enforce':
                         h['enforce'] = v
+                    elif k == 'covers':
+                        h['covers'] = [x for x in v.split(',') if x]
                     elif k == 'replace':
                         h['replace'] = [x for x in v.split(',') if x]
                     elif k in ('timeout', 'mem', 'unwind'):
